@@ -25,6 +25,13 @@ class _Wire:
         return 0
 
     def iscsi(self, env, task):
+        if not (task.lun == env.lun):
+            # the task is addressed to another logical unit of the target than the one the URL names: this block
+            # device never sees it (the other LU answers, here with CHECK CONDITION / LOGICAL UNIT NOT SUPPORTED)
+            self.t.commands.append(("ILLEGAL", "task for LUN %r, the URL names LUN %r" % (task.lun, env.lun)))
+            task.status = 2
+            task.raw_sense = bytearray(b"\x70\x00\x05\x00\x00\x00\x00\x0a\x00\x00\x00\x00\x25\x00\x00\x00\x00\x00")
+            return
         task.status = self.t.handle(task.cdb, task.dataout, task.datain)
         if task.status == 2:
             task.raw_sense = bytearray(b"\x70\x00\x05\x00\x00\x00\x00\x0a\x00\x00\x00\x00\x20\x00\x00\x00\x00\x00")
@@ -38,6 +45,7 @@ def _setup(ctx, transport, bs):
     ident[0] = 0x00  # direct-access block device
     tgt = Target(ctx, bs, ctx.int("last_lba", 64), list(ident) + [0] * 60)
     env.ENV.reset(_Wire(tgt))
+    env.ENV.lun = ctx.int("lun", 16)   # the block device is this logical unit of the iSCSI target
     dev = sd.SCSIDevice("/dev/sg0", readwrite=True) if transport == "sgio" else idv.ISCSIDevice("iscsi://h/t/0", "iqn.t")
     s = SCSI(dev, bs)
     return s, tgt
@@ -214,6 +222,27 @@ def h_history(ctx, transport, ops, bs):
     ctx.check("no command was rejected by the target", all(n != "ILLEGAL" for n, _ in tgt.commands))
 
 
+def h_payload(ctx, transport, form, kind):
+    """the write data may be bytes, a bytearray or a memoryview slice of a larger buffer: what is read back is exactly
+    that data, on either transport"""
+    bs = 4
+    s, tgt = _setup(ctx, transport, bs)
+    big = bytearray(range(16, 80))
+    off = ctx.concrete(ctx.int("offset", 3, lo=0, hi=7)) * 4
+    want = bytes(big[off:off + 2 * bs])
+    data = {"bytes": want, "bytearray": bytearray(want), "memoryview": memoryview(big)[off:off + 2 * bs]}[kind]
+    lb, tb = W[form]
+    lba = ctx.int("lba", lb)
+    getattr(s, "write" + form)(lba, 2, data)
+    r = getattr(s, "read" + form)(lba, 2)
+    ctx.check("read-back of a %s payload" % kind, _conc(r.datain) == want)
+    ctx.check("no command was rejected by the target", all(n != "ILLEGAL" for n, _ in tgt.commands))
+
+
+def _conc(b):
+    return bytes(b.concrete()) if hasattr(b, "concrete") else bytes(b)
+
+
 def h_batch(ctx, transport, forms, bs):
     """commands prepared first and issued afterwards (a queued batch of WRITEs, then a prepared READ): every command
     still carries its own address, length and data when it reaches the target"""
@@ -273,6 +302,8 @@ def obligations(tier):
         if not q:
             hist += [[("W", "12"), ("WS", "10"), ("R", "12")], [("WS", "10"), ("W", "16"), ("R", "10")],
                      [("W", "16"), ("W", "16"), ("W", "12"), ("R", "16")]]
+        for kind in ("bytes", "bytearray", "memoryview"):
+            obs.append(Ob("payload/%s/%s" % (tr, kind), MOD, "h_payload", {"transport": tr, "form": "10", "kind": kind}, canary=False))
         for forms in ([["16", "16", "16"], ["10", "10", "10"]] + ([] if q else [["12", "16", "12"], ["16", "10", "16"]])):
             obs.append(Ob("batch/%s/%s" % ("-".join(forms), tr), MOD, "h_batch", {"transport": tr, "forms": forms, "bs": 2}, split=True))
         for h in hist:
